@@ -1,4 +1,6 @@
 CHECKS = {
  "C04": ("exploration", "concat machine; per-hole reference model vs API live and after re-open, RAW tiling rule after every operation, all concatenation rules (R12-R15, one record per live entity) at every close, per-row digests of untouched holes, group-wide table view",
          "Seeded search over add / update / rename / remove (workspace or parent) / copy / re-open sequences on 1-2 drillhole groups with 1-5 holes, data names shared between holes, both attribute encodings (format 2.0 and 2.1), GC points at op / io-call / source-line granularity.", "5 C04"),
+ "C11": ("fault_enumeration", "lifecycle machine; every abort point of each seeded history plus normal exit, explicit/double close and helper-induced closes; handle count, file validity, completed operations in the file, value-or-closed-error on stale references, re-open liveness",
+         "Exhaustive over the crash points (between-operation aborts of the with-block) of each generated history of <= 12 operations; histories themselves are sampled by seed. Process kills and mid-operation I/O failures are out of scope by the property's text.", "5 C11"),
 }
